@@ -3,7 +3,8 @@
 //   c07_driver run <table> <cases> <scratchdir>
 //     table  : one line per document version:  <docid> \t <abstract text (ignored here)> \t <hex of file bytes>
 //     cases  : one case per line, space separated steps:
-//                W:<file>:<docid>   write / replace a file in the case directory
+//                W:<path>:<docid>   write / replace a file in the case directory (sub-directories are created)
+//                M:<dir/>           create a directory;   K:… / KC  declarations for the model side (ignored here)
 //                D:<file>           delete it
 //                N:<0|1>            new Importer (strict flag); the previous one is destroyed
 //                P:<file>           parse <file> (strict Parser) -> the origin model; prints P=bad if it has no model
@@ -19,6 +20,7 @@
 #include <algorithm>
 #include <cstdio>
 #include <dirent.h>
+#include <sys/stat.h>
 #include <fstream>
 #include <map>
 #include <sstream>
@@ -167,23 +169,45 @@ static std::string guarded(const std::function<std::string()> &fn)
     return out;
 }
 
-// a case that died may have left files behind
-static void cleanDir()
+// a case that died may have left files behind; sub-directories are emptied and removed too
+static void cleanPath(const std::string &dir, bool removeSelf)
 {
-    DIR *d = opendir(gDir.c_str());
+    DIR *d = opendir(dir.c_str());
     if (d == nullptr) {
         return;
     }
-    std::vector<std::string> names;
+    std::vector<std::pair<std::string, bool>> names;
     while (struct dirent *e = readdir(d)) {
         std::string n = e->d_name;
         if (n != "." && n != "..") {
-            names.push_back(n);
+            names.emplace_back(n, e->d_type == DT_DIR);
         }
     }
     closedir(d);
     for (const auto &n : names) {
-        remove((gDir + n).c_str());
+        if (n.second) {
+            cleanPath(dir + n.first + "/", true);
+        } else {
+            remove((dir + n.first).c_str());
+        }
+    }
+    if (removeSelf) {
+        rmdir(dir.c_str());
+    }
+}
+
+static void cleanDir()
+{
+    cleanPath(gDir, false);
+}
+
+// mkdir -p for the directory part of a path relative to the case directory
+static void makeDirs(const std::string &rel)
+{
+    size_t pos = 0;
+    while ((pos = rel.find('/', pos)) != std::string::npos) {
+        mkdir((gDir + rel.substr(0, pos)).c_str(), 0777);
+        ++pos;
     }
 }
 
@@ -206,7 +230,15 @@ static std::string runCase(const std::string &line)
         }
         auto f = splitws(step, ':');
         const std::string &op = f[0];
+        if (op == "K" || op == "KC") {
+            continue; // declarations for the model side: which spellings of a path reach which file
+        }
+        if (op == "M") {
+            makeDirs(f[1]);
+            continue;
+        }
         if (op == "W") {
+            makeDirs(f[1]);
             std::ofstream o(gDir + f[1], std::ios::binary | std::ios::trunc);
             o << gBlobs.at(f[2]);
             o.close();
@@ -272,9 +304,7 @@ static std::string runCase(const std::string &line)
             emit("BADSTEP(" + step + ")");
         }
     }
-    for (const auto &w : written) {
-        remove((gDir + w).c_str());
-    }
+    cleanDir();
     return out;
 }
 
